@@ -721,3 +721,642 @@ Section WithHyp.
     rewrite do_fwd_admin_ok. reflexivity.
   Qed.
 End WithHyp.
+
+
+(** * The inserted blocks are recognised by the implementation's own dissector *)
+
+Lemma decode_encode_nil v : Cbor.wf v -> (depth v <= bundle_fuel)%nat -> decode bundle_fuel (encode v) = Some (v, []).
+Proof. intros Hw Hd. rewrite <- (app_nil_r (encode v)) at 1. apply decode_encode_depth; assumption. Qed.
+
+Lemma impl_prev_parses_encode e : wf_eid e -> impl_prev_parses (encode_prev_node e) = true.
+Proof.
+  intros H. unfold impl_prev_parses, encode_prev_node.
+  destruct (encode (cbor_of_eid e)) eqn:E; [reflexivity|]. rewrite <- E.
+  rewrite decode_encode_nil; [|apply cbor_of_eid_wf, H|pose proof (cbor_of_eid_depth e); unfold bundle_fuel; lia].
+  destruct e; reflexivity.
+Qed.
+
+Lemma impl_age_parses_encode now ct : now < two64 -> ct < two64 -> impl_age_parses (encode (age_item now ct)) = true.
+Proof.
+  intros Hn Hc. unfold impl_age_parses.
+  destruct (encode (age_item now ct)) eqn:E; [reflexivity|]. rewrite <- E.
+  rewrite decode_encode_nil; [|apply age_item_wf; assumption|].
+  - unfold age_item. destruct (ct <=? now); reflexivity.
+  - unfold age_item. destruct (ct <=? now); cbn; unfold bundle_fuel; lia.
+Qed.
+
+Lemma Forall2_map_same {A B} (R : A -> B -> Prop) (f : A -> B) l :
+  (forall x, In x l -> R x (f x)) -> Forall2 R l (map f l).
+Proof.
+  induction l as [|x l IH]; intros H; cbn [map]; constructor.
+  - apply H. left. reflexivity.
+  - apply IH. intros y Hy. apply H. right. exact Hy.
+Qed.
+
+Lemma map_ext_filter_in {A B} (q : A -> bool) (f g : A -> B) l :
+  (forall x, In x l -> q x = true -> f x = g x) -> map f (filter q l) = map g (filter q l).
+Proof.
+  intros H. apply map_ext_in. intros x Hx. apply filter_In in Hx as [Hx Hq]. apply H; assumption.
+Qed.
+
+Lemma opt_bytes_eqb_refl o : opt_bytes_eqb o o = true.
+Proof. destruct o; cbn [opt_bytes_eqb]; [apply bytes_eqb_eq|]; reflexivity. Qed.
+
+Lemma crc_ok_with_crc_block y : crc_ok_block (with_crc_block y) = true.
+Proof. unfold crc_ok_block. destruct y. apply opt_bytes_eqb_refl. Qed.
+
+Lemma crc_ok_with_crc_primary p : crc_ok_primary (with_crc_primary p) = true.
+Proof. unfold crc_ok_primary. destruct p. apply opt_bytes_eqb_refl. Qed.
+
+(** * Property C11 over the forwarded bundle *)
+
+Section C11.
+  Variables (node : eid) (now : N) (b : bundle).
+  Hypothesis Hb : fwd_inb node now b = true.
+
+  Let Hin : fwd_in node now b := fwd_inb_spec node now b Hb.
+  Let a := is_admin (prim b).
+  Let ct := create_time (prim b).
+  Let out := do_fwd node now b.
+
+  Lemma c11_wire : decode_bundle (encode_bundle (do_fwd node now b)) = Some (do_fwd node now b).
+  Proof. apply fwd_wire. exact Hin. Qed.
+
+  Lemma c11_w w : decode_bundle (encode_bundle (do_fwd node now b)) = Some w -> w = do_fwd node now b.
+  Proof. rewrite c11_wire. intros H. injection H as <-. reflexivity. Qed.
+
+  (** filters of the transmitted block list *)
+  Lemma out_filter (q : cblock -> bool) :
+    (forall x, q (fin a x) = q x) ->
+    filter q (blocks out) = map (fin a) (filter q (fwd_blocks node now ct (blocks b))).
+  Proof. intros H. unfold out. rewrite do_fwd_blocks. apply filter_map_comm. exact H. Qed.
+
+  Lemma primary_char :
+    prim out = with_crc_primary (apply_primary now (impl_norm_primary (prim b))).
+  Proof. reflexivity. Qed.
+
+  Lemma primary_unchanged :
+    eids_stableb (prim b) = true -> (create_time (prim b) =? 0) = false -> (lifetime (prim b) =? 0) = false ->
+    version (prim out) = version (prim b) /\ flags (prim out) = flags (prim b) /\
+    crc_type (prim out) = crc_type (prim b) /\
+    dest (prim out) = dest (prim b) /\ src (prim out) = src (prim b) /\
+    report_to (prim out) = report_to (prim b) /\
+    create_time (prim out) = create_time (prim b) /\ create_seq (prim out) = create_seq (prim b) /\
+    lifetime (prim out) = lifetime (prim b) /\ frag (prim out) = frag (prim b).
+  Proof.
+    unfold eids_stableb. rewrite !andb_true_iff. intros [[Hd Hs] Hr] Ht Hl.
+    apply eid_eqb_eq in Hd, Hs, Hr. rewrite primary_char.
+    unfold with_crc_primary, set_crc, apply_primary, impl_norm_primary.
+    cbn [version flags crc_type dest src report_to create_time create_seq lifetime frag crc].
+    rewrite Ht, Hl. repeat split; assumption.
+  Qed.
+
+  (** fields that never change, whatever the received values *)
+  Lemma primary_always :
+    version (prim out) = version (prim b) /\ flags (prim out) = flags (prim b) /\
+    crc_type (prim out) = crc_type (prim b) /\ frag (prim out) = frag (prim b) /\
+    (create_time (prim b) <> 0 -> create_time (prim out) = create_time (prim b) /\ create_seq (prim out) = create_seq (prim b)) /\
+    (lifetime (prim b) <> 0 -> lifetime (prim out) = lifetime (prim b)).
+  Proof.
+    rewrite primary_char. unfold with_crc_primary, set_crc, apply_primary, impl_norm_primary.
+    cbn [version flags crc_type dest src report_to create_time create_seq lifetime frag crc].
+    split; [reflexivity|]. split; [reflexivity|]. split; [reflexivity|]. split; [reflexivity|].
+    split.
+    - intros H. apply N.eqb_neq in H. rewrite H. split; reflexivity.
+    - intros H. apply N.eqb_neq in H. rewrite H. reflexivity.
+  Qed.
+
+  Lemma t1_fin x : t1 (fin a x) = t1 x.
+  Proof. unfold t1. rewrite fin_btype. reflexivity. Qed.
+  Lemma t6_fin x : t6 (fin a x) = t6 x.
+  Proof. unfold t6. rewrite fin_btype. reflexivity. Qed.
+  Lemma t7_fin x : t7 (fin a x) = t7 x.
+  Proof. unfold t7. rewrite fin_btype. reflexivity. Qed.
+  Lemma t10_fin x : t10 (fin a x) = t10 x.
+  Proof. unfold t10. rewrite fin_btype. reflexivity. Qed.
+
+  Lemma keep_t1 : filter t1 (fwd_blocks node now ct (blocks b)) = filter t1 (blocks b).
+  Proof.
+    rewrite fwd_filter_keep.
+    - rewrite <- (map_id (filter t1 (blocks b))) at 2. apply map_ext_filter.
+      intros x Hx. apply bump_hop_other. unfold t1 in Hx. apply N.eqb_eq in Hx. rewrite Hx. reflexivity.
+    - intros x Hx. unfold t1 in Hx. apply N.eqb_eq in Hx. split; [apply is_prev_t1|apply is_age_t1]; exact Hx.
+    - intros x. unfold t1. rewrite bump_hop_btype. reflexivity.
+    - reflexivity.
+    - reflexivity.
+  Qed.
+
+  Lemma payload_unchanged :
+    payload_stableb b = true ->
+    map core (filter t1 (blocks out)) = map core (filter t1 (blocks b)).
+  Proof.
+    intros Hs. rewrite out_filter by apply t1_fin. rewrite keep_t1. rewrite map_map.
+    apply map_ext_filter_in. intros x Hxin Hx.
+    unfold payload_stableb in Hs. rewrite forallb_forall in Hs. specialize (Hs x Hxin).
+    unfold t1 in Hx. rewrite Hx in Hs. cbn [negb orb] in Hs. apply bytes_eqb_eq in Hs.
+    unfold core. rewrite fin_btype, fin_bnum, fin_bflags, fin_bcrc_type, fin_btsd_norm.
+    fold a in Hs. rewrite Hs. reflexivity.
+  Qed.
+
+  (** ** previous node *)
+  Lemma prev_exactly_one :
+    prev_parseb b = true ->
+    exists blk, filter t6 (blocks out) = [blk] /\ decode_prev_node (btsd blk) = Some node.
+  Proof.
+    intros Hp. unfold prev_parseb in Hp. rewrite forallb_forall in Hp.
+    rewrite out_filter by apply t6_fin. rewrite fwd_filter_prev.
+    - cbn [map]. eexists. split; [reflexivity|].
+      rewrite fin_btsd_other by reflexivity. cbn [prev_blk new_block btsd].
+      rewrite (in_node_stable _ _ _ Hin). apply prev_node_roundtrip, (in_node_wf _ _ _ Hin).
+    - intros x Hx E. specialize (Hp x Hx). change BLOCK_PREV_NODE with 6 in Hp. rewrite E in Hp. exact Hp.
+  Qed.
+
+  (** ** hop count *)
+  Lemma keep_t10 : filter t10 (fwd_blocks node now ct (blocks b)) = map bump_hop (filter t10 (blocks b)).
+  Proof.
+    apply fwd_filter_keep.
+    - intros x Hx. unfold t10 in Hx. apply N.eqb_eq in Hx. unfold is_prev, is_age. rewrite Hx. split; reflexivity.
+    - intros x. unfold t10. rewrite bump_hop_btype. reflexivity.
+    - reflexivity.
+    - reflexivity.
+  Qed.
+
+  Lemma hop_count :
+    Forall2 (fun rb wb =>
+               bnum wb = bnum rb /\ bflags wb = bflags rb /\ bcrc_type wb = bcrc_type rb /\
+               match decode_hop_count (btsd rb) with
+               | Some (l, c) => decode_hop_count (btsd wb) = Some (l, c + 1)
+               | None => btsd wb = btsd rb
+               end)
+            (filter t10 (blocks b)) (filter t10 (blocks out)).
+  Proof.
+    rewrite out_filter by apply t10_fin. rewrite keep_t10, map_map.
+    apply Forall2_map_same. intros x Hx. apply filter_In in Hx as [Hx Ht].
+    unfold t10 in Ht. pose proof Ht as Ht'. apply N.eqb_eq in Ht'.
+    rewrite fin_bnum, fin_bflags, fin_bcrc_type, bump_hop_bnum.
+    destruct (bump_hop_fields x) as (_ & _ & Hf & Hc & _). rewrite Hf, Hc.
+    split; [reflexivity|]. split; [reflexivity|]. split; [reflexivity|].
+    rewrite fin_btsd_other by (rewrite bump_hop_btype, Ht'; reflexivity).
+    assert (Hv : hop_view x = decode_hop_count (btsd x)).
+    { unfold hop_view. change BLOCK_HOP_COUNT with 10. rewrite Ht. reflexivity. }
+    unfold bump_hop. rewrite Hv.
+    destruct (decode_hop_count (btsd x)) as [[l c]|] eqn:E; [|reflexivity].
+    cbn [set_btsd btsd].
+    pose proof (in_wfb _ _ _ Hin) as Hw. rewrite Forall_forall in Hw.
+    pose proof (in_hop _ _ _ Hin) as Hh. rewrite Forall_forall in Hh.
+    destruct (hop_view_bounds x l c (Hw x Hx) Hv) as [Hl _].
+    specialize (Hh x Hx). unfold hop_okb in Hh. rewrite Hv in Hh. unfold lt64 in Hh. apply N.ltb_lt in Hh.
+    apply hop_count_roundtrip; assumption.
+  Qed.
+
+  (** ** bundle age *)
+  Lemma age_at_most_one :
+    age_parseb b = true ->
+    (create_time (prim b) = 0 -> filter t7 (blocks out) = []) /\
+    (create_time (prim b) <> 0 ->
+     exists blk, filter t7 (blocks out) = [blk] /\
+                 (create_time (prim b) <= now -> decode_bundle_age (btsd blk) = Some (now - create_time (prim b)))).
+  Proof.
+    intros Hp. unfold age_parseb in Hp. rewrite forallb_forall in Hp.
+    assert (Hf : filter t7 (blocks out) =
+                 map (fin a) (if ct =? 0 then [] else [age_blk node now ct (blocks b)])).
+    { rewrite out_filter by apply t7_fin. rewrite fwd_filter_age; [reflexivity|].
+      intros x Hx E. specialize (Hp x Hx). change BLOCK_AGE with 7 in Hp. rewrite E in Hp. exact Hp. }
+    split.
+    - intros E. rewrite Hf. fold ct in E. rewrite E. reflexivity.
+    - intros E. fold ct in E. apply N.eqb_neq in E. rewrite Hf, E. cbn [map]. eexists. split; [reflexivity|].
+      intros Hle. rewrite fin_btsd_other by reflexivity. cbn [age_blk new_block btsd].
+      unfold age_item. fold ct in Hle. apply N.leb_le in Hle. rewrite Hle.
+      apply bundle_age_roundtrip. pose proof (in_now _ _ _ Hin). lia.
+  Qed.
+
+  (** ** block numbers *)
+  Lemma numbers_unique : NoDup (map bnum (blocks out)) /\ ~ In 0 (map bnum (blocks out)).
+  Proof.
+    assert (H : NoDup (used_nums (blocks out))).
+    { unfold out. rewrite do_fwd_blocks. unfold used_nums. rewrite map_map.
+      rewrite (map_ext (fun x => bnum (fin a x)) bnum) by (intros x; apply fin_bnum).
+      apply (fwd_blocks_nodup node now ct (blocks b)), (in_nod _ _ _ Hin). }
+    unfold used_nums in H. inversion H; subst. split; assumption.
+  Qed.
+
+  (** ** payload block last, numbered 1 *)
+  Lemma payload_last_num1 :
+    payload_last_num1b (blocks b) = true ->
+    exists pre pl, blocks out = pre ++ [pl] /\ btype pl = 1 /\ bnum pl = 1.
+  Proof.
+    unfold payload_last_num1b. intros H.
+    destruct (list_last_case (blocks b)) as [E|(pre & pl & E)]; rewrite E in H.
+    - discriminate.
+    - rewrite rev_app_distr in H. cbn [rev app] in H. apply andb_true_iff in H as [H1 Hn].
+      apply N.eqb_eq in H1, Hn.
+      destruct (fwd_blocks_last node now ct pre pl H1) as [pre' Hl].
+      unfold out. rewrite do_fwd_blocks, E. fold ct. rewrite Hl, map_app. cbn [map].
+      exists (map (fin (is_admin (prim b))) pre'), (fin (is_admin (prim b)) pl).
+      split; [reflexivity|]. rewrite fin_btype, fin_bnum. split; assumption.
+  Qed.
+
+  (** ** CRCs *)
+  Lemma crcs_valid : crc_ok_bundle out = true.
+  Proof.
+    unfold crc_ok_bundle. apply andb_true_iff. split.
+    - rewrite primary_char. apply crc_ok_with_crc_primary.
+    - unfold out. rewrite do_fwd_blocks. apply forallb_forall. intros z Hz.
+      apply in_map_iff in Hz as (x & <- & _). apply crc_ok_with_crc_block.
+  Qed.
+
+  (** ** everything else *)
+  Lemma untouched_fin x : untouchedb (fin a x) = untouchedb x.
+  Proof.
+    unfold untouchedb. rewrite fin_btype. change BLOCK_PAYLOAD with 1.
+    destruct (btype x =? 1) eqn:E; [rewrite !andb_false_r; reflexivity|].
+    unfold is_prev, is_age. rewrite fin_btype, fin_btsd_other by exact E. reflexivity.
+  Qed.
+
+  Lemma other_blocks_untouched :
+    map core (filter untouchedb (blocks out)) = map core (filter untouchedb (blocks b)).
+  Proof.
+    rewrite out_filter by apply untouched_fin. rewrite fwd_filter_keep.
+    - rewrite !map_map. apply map_ext_filter. intros x Hx.
+      unfold untouchedb in Hx. rewrite !andb_true_iff, !negb_true_iff in Hx. destruct Hx as [[[_ _] H10] H1].
+      rewrite bump_hop_other by exact H10. apply fin_core_other. exact H1.
+    - intros x Hx. unfold untouchedb in Hx. rewrite !andb_true_iff, !negb_true_iff in Hx. tauto.
+    - intros x. unfold untouchedb. rewrite bump_hop_is_prev, bump_hop_is_age, bump_hop_btype. reflexivity.
+    - unfold untouchedb. assert (H : is_prev (prev_blk node (blocks b)) = true); [|rewrite H; reflexivity].
+      unfold is_prev. cbn [prev_blk new_block btype btsd]. rewrite (in_node_stable _ _ _ Hin).
+      rewrite impl_prev_parses_encode by apply (in_node_wf _ _ _ Hin). reflexivity.
+    - unfold untouchedb. assert (H : is_age (age_blk node now ct (blocks b)) = true); [|rewrite H, andb_false_r; reflexivity].
+      unfold is_age. cbn [age_blk new_block btype btsd].
+      rewrite impl_age_parses_encode; [reflexivity|apply (in_now _ _ _ Hin)|apply (in_ct node now b Hin)].
+  Qed.
+End C11.
+
+
+(** * From the CL callback to the CL sender *)
+
+Theorem recv_fwd_sent node now bs b :
+  decode_bundle bs = Some b -> fwd_inb node now b = true -> recv_crc_ok b = true ->
+  eid_eqb (src (prim b)) node = false ->
+  recv_fwd node now bs = RxSent (encode_bundle (do_fwd node now b)).
+Proof.
+  intros Hd Hb Hc Hs. unfold recv_fwd. rewrite Hd.
+  pose proof (fwd_inb_spec node now b Hb) as Hin.
+  assert (H1 : nodupb (used_nums (blocks b)) = true) by (apply nodupb_spec, (in_nod _ _ _ Hin)).
+  rewrite H1, Hc, Hs. cbn [negb].
+  assert (H2 : existsb hop_raises (blocks b) = false) by (apply existsb_false, (in_raise _ _ _ Hin)).
+  rewrite H2. reflexivity.
+Qed.
+
+Theorem recv_fwd_duplicate_numbers node now bs b :
+  decode_bundle bs = Some b -> nodupb (used_nums (blocks b)) = false ->
+  recv_fwd node now bs = RxContainerRaises.
+Proof. intros Hd Hn. unfold recv_fwd. rewrite Hd, Hn. reflexivity. Qed.
+
+(** * Witnesses *)
+
+Definition ex_node : eid := EidDtn [47; 47; 109; 101; 47].          (* dtn://me/ *)
+Definition ex_now : N := 800000000000.
+Definition ex_dest : eid := EidDtn [47; 47; 100; 47; 120].           (* dtn://d/x *)
+Definition ex_primary (ct lt ctype : N) (d : eid) (fl : N) : primary :=
+  mkPrimary 7 fl ctype d (EidIpn [1; 2]) EidDtnNone ct 3 lt None None.
+Definition ex_prev : cblock := mkCBlock 6 2 0 0 (encode_prev_node (EidDtn [47; 47; 112; 47])) None.
+Definition ex_hop : cblock := mkCBlock 10 3 0 1 (encode_hop_count (30, 3)) None.
+Definition ex_age : cblock := mkCBlock 7 4 0 0 (encode_bundle_age 5) None.
+Definition ex_unk : cblock := mkCBlock 192 5 1 2 [1; 2; 3] None.
+Definition ex_pay : cblock := mkCBlock 1 1 0 2 [104; 105] None.
+(** CRC values filled in, as a sender would *)
+Definition mk_ex (p : primary) (bl : list cblock) : bundle := with_crc_bundle (mkBundle p bl).
+
+(** a received bundle with one block of each kind: satisfies every hypothesis used below *)
+Definition ex_bundle : bundle :=
+  mk_ex (ex_primary 700000000000 1000 1 ex_dest 0) [ex_prev; ex_hop; ex_age; ex_unk; ex_pay].
+
+Definition all_guards (node : eid) (now : N) (b : bundle) : list bool :=
+  [fwd_inb node now b; eids_stableb (prim b); payload_stableb b; prev_parseb b; age_parseb b;
+   payload_last_num1b (blocks b); negb (create_time (prim b) =? 0); negb (lifetime (prim b) =? 0);
+   create_time (prim b) <=? now; recv_crc_ok b; negb (eid_eqb (src (prim b)) node)].
+
+Example ex_bundle_hyps :
+  all_guards ex_node ex_now ex_bundle = [true; true; true; true; true; true; true; true; true; true; true] /\
+  decode_bundle (encode_bundle ex_bundle) = Some ex_bundle.
+Proof. split; vm_compute; reflexivity. Qed.
+
+(** what leaves the node: hop count [30,4] (CRC kept), unknown block as it came, previous node = dtn://me/
+    numbered 2 (the number of the removed one), age 10^11 ms numbered 4, payload last *)
+Example ex_bundle_forwarded :
+  map core (blocks (do_fwd ex_node ex_now ex_bundle)) =
+  [(10, 3, 0, 1, [130; 24; 30; 4]); (192, 5, 1, 2, [1; 2; 3]);
+   (6, 2, 0, 0, [130; 1; 101; 47; 47; 109; 101; 47]);
+   (7, 4, 0, 0, [27; 0; 0; 0; 23; 72; 118; 232; 0]);
+   (1, 1, 0, 2, [104; 105])] /\
+  recv_fwd ex_node ex_now (encode_bundle ex_bundle) = RxSent (encode_bundle (do_fwd ex_node ex_now ex_bundle)).
+Proof. split; vm_compute; reflexivity. Qed.
+
+(** witnesses of the refuted statements: each violates exactly one guard *)
+Definition wit_time0 := mk_ex (ex_primary 0 1000 1 ex_dest 0) [ex_age; ex_pay].
+Definition wit_life0 := mk_ex (ex_primary 700000000000 0 1 ex_dest 0) [ex_pay].
+Definition query_dest : eid := EidDtn [47; 47; 100; 47; 120; 63; 121].   (* dtn://d/x?y *)
+Definition wit_eid := mk_ex (ex_primary 700000000000 1000 0 query_dest 0) [ex_pay].
+Definition query_report : status_report :=
+  mkStatusReport (true, None) (false, None) (false, None) (false, None) 0
+                 (EidDtn [47; 47; 120; 47; 97; 63; 98]) 5 1 None None.   (* subject source dtn://x/a?b *)
+Definition wit_admin := mk_ex (ex_primary 700000000000 1000 1 ex_dest 2)
+                              [mkCBlock 1 1 0 1 (encode_status_report query_report) None].
+Definition wit_prevjunk := mk_ex (ex_primary 700000000000 1000 1 ex_dest 0) [mkCBlock 6 2 0 0 [5] None; ex_pay].
+Definition wit_agejunk := mk_ex (ex_primary 700000000000 1000 1 ex_dest 0) [mkCBlock 7 2 0 0 [97; 120] None; ex_pay].
+Definition wit_future := mk_ex (ex_primary 800000001000 1000 1 ex_dest 0) [ex_pay].
+Definition wit_paypos := mk_ex (ex_primary 700000000000 1000 1 ex_dest 0) [ex_pay; ex_unk].
+
+Example witnesses_guards :
+  map (all_guards ex_node ex_now) [wit_time0; wit_life0; wit_eid; wit_admin; wit_prevjunk; wit_agejunk; wit_future; wit_paypos] =
+  [[true; true; true; true; true; true; false; true; true; true; true];
+   [true; true; true; true; true; true; true; false; true; true; true];
+   [true; false; true; true; true; true; true; true; true; true; true];
+   [true; true; false; true; true; true; true; true; true; true; true];
+   [true; true; true; false; true; true; true; true; true; true; true];
+   [true; true; true; true; false; true; true; true; true; true; true];
+   [true; true; true; true; true; true; true; true; false; true; true];
+   [true; true; true; true; true; false; true; true; true; true; true]].
+Proof. vm_compute. reflexivity. Qed.
+
+Definition wire (node : eid) (now : N) (b : bundle) : option bundle :=
+  decode_bundle (encode_bundle (do_fwd node now b)).
+
+Lemma time0_refutes :
+  fwd_inb ex_node ex_now wit_time0 = true /\ eids_stableb (prim wit_time0) = true /\
+  (lifetime (prim wit_time0) =? 0) = false /\
+  exists w, wire ex_node ex_now wit_time0 = Some w /\
+            create_time (prim wit_time0) = 0 /\ create_time (prim w) = ex_now /\
+            create_seq (prim wit_time0) = 3 /\ create_seq (prim w) = 0 /\
+            filter (fun x => btype x =? 7) (blocks wit_time0) <> [] /\ filter (fun x => btype x =? 7) (blocks w) = [].
+Proof.
+  split; [vm_compute; reflexivity|]. split; [vm_compute; reflexivity|]. split; [vm_compute; reflexivity|].
+  eexists. split; [vm_compute; reflexivity|]. repeat split; try (vm_compute; reflexivity).
+  vm_compute. discriminate.
+Qed.
+
+Lemma life0_refutes :
+  fwd_inb ex_node ex_now wit_life0 = true /\ eids_stableb (prim wit_life0) = true /\
+  (create_time (prim wit_life0) =? 0) = false /\
+  exists w, wire ex_node ex_now wit_life0 = Some w /\ lifetime (prim wit_life0) = 0 /\ lifetime (prim w) = 3600000.
+Proof.
+  split; [vm_compute; reflexivity|]. split; [vm_compute; reflexivity|]. split; [vm_compute; reflexivity|].
+  eexists. split; [vm_compute; reflexivity|]. split; vm_compute; reflexivity.
+Qed.
+
+Lemma eid_refutes :
+  fwd_inb ex_node ex_now wit_eid = true /\
+  (create_time (prim wit_eid) =? 0) = false /\ (lifetime (prim wit_eid) =? 0) = false /\
+  recv_crc_ok wit_eid = true /\
+  exists w, wire ex_node ex_now wit_eid = Some w /\ dest (prim w) <> dest (prim wit_eid).
+Proof.
+  split; [vm_compute; reflexivity|]. split; [vm_compute; reflexivity|]. split; [vm_compute; reflexivity|].
+  split; [vm_compute; reflexivity|].
+  eexists. split; [vm_compute; reflexivity|]. vm_compute. discriminate.
+Qed.
+
+Lemma admin_refutes :
+  fwd_inb ex_node ex_now wit_admin = true /\ recv_crc_ok wit_admin = true /\
+  exists w, wire ex_node ex_now wit_admin = Some w /\
+            map btsd (filter (fun x => btype x =? 1) (blocks w)) <> map btsd (filter (fun x => btype x =? 1) (blocks wit_admin)).
+Proof.
+  split; [vm_compute; reflexivity|]. split; [vm_compute; reflexivity|].
+  eexists. split; [vm_compute; reflexivity|]. vm_compute. discriminate.
+Qed.
+
+Lemma prevjunk_refutes :
+  fwd_inb ex_node ex_now wit_prevjunk = true /\
+  exists w, wire ex_node ex_now wit_prevjunk = Some w /\
+            length (filter (fun x => btype x =? 6) (blocks w)) = 2%nat.
+Proof. split; [vm_compute; reflexivity|]. eexists. split; vm_compute; reflexivity. Qed.
+
+Lemma agejunk_refutes :
+  fwd_inb ex_node ex_now wit_agejunk = true /\
+  exists w, wire ex_node ex_now wit_agejunk = Some w /\
+            length (filter (fun x => btype x =? 7) (blocks w)) = 2%nat.
+Proof. split; [vm_compute; reflexivity|]. eexists. split; vm_compute; reflexivity. Qed.
+
+Lemma future_refutes :
+  fwd_inb ex_node ex_now wit_future = true /\ age_parseb wit_future = true /\
+  ex_now < create_time (prim wit_future) /\
+  exists w blk, wire ex_node ex_now wit_future = Some w /\
+                filter (fun x => btype x =? 7) (blocks w) = [blk] /\
+                decode_bundle_age (btsd blk) = None /\
+                btsd blk = encode (CNint (create_time (prim wit_future) - ex_now - 1)).
+Proof.
+  split; [vm_compute; reflexivity|]. split; [vm_compute; reflexivity|]. split; [vm_compute; reflexivity|].
+  eexists. eexists. split; [vm_compute; reflexivity|]. split; [vm_compute; reflexivity|].
+  split; vm_compute; reflexivity.
+Qed.
+
+Lemma paypos_example :
+  fwd_inb ex_node ex_now wit_paypos = true /\ payload_last_num1b (blocks wit_paypos) = false /\
+  exists w, wire ex_node ex_now wit_paypos = Some w /\ payload_last_num1b (blocks w) = false /\
+            map btype (blocks w) = [1; 6; 7; 192].
+Proof.
+  split; [vm_compute; reflexivity|]. split; [vm_compute; reflexivity|].
+  eexists. split; [vm_compute; reflexivity|]. split; vm_compute; reflexivity.
+Qed.
+
+(** * Closed forms used by [Props/C11.v] (about [w] = what the transmitted octets decode to) *)
+
+Lemma C11_primary_unchanged_partial_holds : forall (node : eid) (now : N) (b w : bundle),
+  fwd_inb node now b = true ->
+  eids_stableb (prim b) = true ->              (* no EID is changed by the text conversion (C02 class) *)
+  (create_time (prim b) =? 0) = false ->       (* creation time not 0 *)
+  (lifetime (prim b) =? 0) = false ->          (* lifetime not 0 *)
+  decode_bundle (encode_bundle (do_fwd node now b)) = Some w ->
+  version (prim w) = version (prim b) /\ flags (prim w) = flags (prim b) /\
+  crc_type (prim w) = crc_type (prim b) /\
+  dest (prim w) = dest (prim b) /\ src (prim w) = src (prim b) /\ report_to (prim w) = report_to (prim b) /\
+  create_time (prim w) = create_time (prim b) /\ create_seq (prim w) = create_seq (prim b) /\
+  lifetime (prim w) = lifetime (prim b) /\ frag (prim w) = frag (prim b).
+Proof.
+  intros node now b w Hb He Ht Hl Hw. apply (c11_w node now b Hb) in Hw. subst w.
+  apply primary_unchanged; assumption.
+Qed.
+
+Lemma C11_primary_characterised_holds : forall (node : eid) (now : N) (b w : bundle),
+  fwd_inb node now b = true ->
+  decode_bundle (encode_bundle (do_fwd node now b)) = Some w ->
+  prim w = with_crc_primary (apply_primary now (impl_norm_primary (prim b))) /\
+  version (prim w) = version (prim b) /\ flags (prim w) = flags (prim b) /\
+  crc_type (prim w) = crc_type (prim b) /\ frag (prim w) = frag (prim b) /\
+  (create_time (prim b) <> 0 ->
+   create_time (prim w) = create_time (prim b) /\ create_seq (prim w) = create_seq (prim b)) /\
+  (lifetime (prim b) <> 0 -> lifetime (prim w) = lifetime (prim b)).
+Proof.
+  intros node now b w Hb Hw. apply (c11_w node now b Hb) in Hw. subst w.
+  split; [reflexivity|]. apply primary_always.
+Qed.
+
+Lemma C11_primary_unchanged_refuted_time0_holds :
+  exists (node : eid) (now : N) (b w : bundle),
+    fwd_inb node now b = true /\ eids_stableb (prim b) = true /\ (lifetime (prim b) =? 0) = false /\
+    decode_bundle (encode_bundle (do_fwd node now b)) = Some w /\
+    create_time (prim b) = 0 /\ create_time (prim w) = now /\
+    create_seq (prim b) = 3 /\ create_seq (prim w) = 0 /\
+    (* and the received Bundle Age block is gone *)
+    filter (fun x => btype x =? 7) (blocks b) <> [] /\ filter (fun x => btype x =? 7) (blocks w) = [].
+Proof.
+  destruct time0_refutes as (H1 & H2 & H3 & w & H4 & H5).
+  exists ex_node, ex_now, wit_time0, w. repeat (split; [assumption|]). exact H5.
+Qed.
+
+Lemma C11_primary_unchanged_refuted_lifetime0_holds :
+  exists (node : eid) (now : N) (b w : bundle),
+    fwd_inb node now b = true /\ eids_stableb (prim b) = true /\ (create_time (prim b) =? 0) = false /\
+    decode_bundle (encode_bundle (do_fwd node now b)) = Some w /\
+    lifetime (prim b) = 0 /\ lifetime (prim w) = 3600000.
+Proof.
+  destruct life0_refutes as (H1 & H2 & H3 & w & H4 & H5).
+  exists ex_node, ex_now, wit_life0, w. repeat (split; [assumption|]). exact H5.
+Qed.
+
+Lemma C11_primary_unchanged_refuted_eid_holds :
+  exists (node : eid) (now : N) (b w : bundle),
+    fwd_inb node now b = true /\ (create_time (prim b) =? 0) = false /\ (lifetime (prim b) =? 0) = false /\
+    recv_crc_ok b = true /\
+    decode_bundle (encode_bundle (do_fwd node now b)) = Some w /\ dest (prim w) <> dest (prim b).
+Proof.
+  destruct eid_refutes as (H1 & H2 & H3 & H4 & w & H5 & H6).
+  exists ex_node, ex_now, wit_eid, w. repeat (split; [assumption|]). exact H6.
+Qed.
+
+Lemma C11_payload_unchanged_partial_holds : forall (node : eid) (now : N) (b w : bundle),
+  fwd_inb node now b = true ->
+  payload_stableb b = true ->       (* not a status report whose re-encoding differs (EID with ? / #) *)
+  decode_bundle (encode_bundle (do_fwd node now b)) = Some w ->
+  (* type, number, flags, CRC type and data of the type-1 block(s) *)
+  map core (filter (fun x => btype x =? 1) (blocks w)) = map core (filter (fun x => btype x =? 1) (blocks b)).
+Proof.
+  intros node now b w Hb Hs Hw. apply (c11_w node now b Hb) in Hw. subst w.
+  apply payload_unchanged; assumption.
+Qed.
+
+Lemma C11_payload_unchanged_refuted_holds :
+  exists (node : eid) (now : N) (b w : bundle),
+    fwd_inb node now b = true /\ recv_crc_ok b = true /\
+    decode_bundle (encode_bundle (do_fwd node now b)) = Some w /\
+    map btsd (filter (fun x => btype x =? 1) (blocks w)) <> map btsd (filter (fun x => btype x =? 1) (blocks b)).
+Proof.
+  destruct admin_refutes as (H1 & H2 & w & H3 & H4).
+  exists ex_node, ex_now, wit_admin, w. repeat (split; [assumption|]). exact H4.
+Qed.
+
+Lemma C11_prev_node_exactly_one_partial_holds : forall (node : eid) (now : N) (b w : bundle),
+  fwd_inb node now b = true ->
+  prev_parseb b = true ->           (* every received type-6 block is one the implementation dissects *)
+  decode_bundle (encode_bundle (do_fwd node now b)) = Some w ->
+  exists blk, filter (fun x => btype x =? 6) (blocks w) = [blk] /\ decode_prev_node (btsd blk) = Some node.
+Proof.
+  intros node now b w Hb Hp Hw. apply (c11_w node now b Hb) in Hw. subst w.
+  apply prev_exactly_one; assumption.
+Qed.
+
+Lemma C11_prev_node_exactly_one_refuted_holds :
+  exists (node : eid) (now : N) (b w : bundle),
+    fwd_inb node now b = true /\
+    decode_bundle (encode_bundle (do_fwd node now b)) = Some w /\
+    length (filter (fun x => btype x =? 6) (blocks w)) = 2%nat.
+Proof.
+  destruct prevjunk_refutes as (H1 & w & H2 & H3). exists ex_node, ex_now, wit_prevjunk, w. tauto.
+Qed.
+
+Lemma C11_hop_count_holds : forall (node : eid) (now : N) (b w : bundle),
+  fwd_inb node now b = true ->
+  decode_bundle (encode_bundle (do_fwd node now b)) = Some w ->
+  Forall2 (fun rb wb =>
+             bnum wb = bnum rb /\ bflags wb = bflags rb /\ bcrc_type wb = bcrc_type rb /\
+             match decode_hop_count (btsd rb) with
+             | Some (l, c) => decode_hop_count (btsd wb) = Some (l, c + 1)
+             | None => btsd wb = btsd rb
+             end)
+          (filter (fun x => btype x =? 10) (blocks b)) (filter (fun x => btype x =? 10) (blocks w)).
+Proof.
+  intros node now b w Hb Hw. apply (c11_w node now b Hb) in Hw. subst w. apply hop_count; exact Hb.
+Qed.
+
+Lemma C11_age_at_most_one_partial_holds : forall (node : eid) (now : N) (b w : bundle),
+  fwd_inb node now b = true ->
+  age_parseb b = true ->            (* every received type-7 block is one the implementation dissects *)
+  decode_bundle (encode_bundle (do_fwd node now b)) = Some w ->
+  (create_time (prim b) = 0 -> filter (fun x => btype x =? 7) (blocks w) = []) /\
+  (create_time (prim b) <> 0 ->
+   exists blk, filter (fun x => btype x =? 7) (blocks w) = [blk] /\
+               (create_time (prim b) <= now ->
+                decode_bundle_age (btsd blk) = Some (now - create_time (prim b)))).
+Proof.
+  intros node now b w Hb Hp Hw. apply (c11_w node now b Hb) in Hw. subst w.
+  apply age_at_most_one; assumption.
+Qed.
+
+Lemma C11_age_at_most_one_refuted_holds :
+  exists (node : eid) (now : N) (b w : bundle),
+    fwd_inb node now b = true /\
+    decode_bundle (encode_bundle (do_fwd node now b)) = Some w /\
+    length (filter (fun x => btype x =? 7) (blocks w)) = 2%nat.
+Proof.
+  destruct agejunk_refutes as (H1 & w & H2 & H3). exists ex_node, ex_now, wit_agejunk, w. tauto.
+Qed.
+
+Lemma C11_age_value_refuted_holds :
+  exists (node : eid) (now : N) (b w : bundle) (blk : cblock),
+    fwd_inb node now b = true /\ age_parseb b = true /\ now < create_time (prim b) /\
+    decode_bundle (encode_bundle (do_fwd node now b)) = Some w /\
+    filter (fun x => btype x =? 7) (blocks w) = [blk] /\
+    decode_bundle_age (btsd blk) = None /\                                    (* not an unsigned integer *)
+    btsd blk = encode (CNint (create_time (prim b) - now - 1)).             (* the integer now - creation < 0 *)
+Proof.
+  destruct future_refutes as (H1 & H2 & H3 & w & blk & H4 & H5 & H6 & H7).
+  exists ex_node, ex_now, wit_future, w, blk. tauto.
+Qed.
+
+Lemma C11_block_numbers_unique_holds : forall (node : eid) (now : N) (b w : bundle),
+  fwd_inb node now b = true ->      (* includes: the received numbers are distinct and none is 0 *)
+  decode_bundle (encode_bundle (do_fwd node now b)) = Some w ->
+  NoDup (map bnum (blocks w)) /\ ~ In 0 (map bnum (blocks w)).
+Proof.
+  intros node now b w Hb Hw. apply (c11_w node now b Hb) in Hw. subst w. apply numbers_unique; exact Hb.
+Qed.
+
+Lemma C11_payload_last_num1_holds : forall (node : eid) (now : N) (b w : bundle),
+  fwd_inb node now b = true ->
+  payload_last_num1b (blocks b) = true ->
+  decode_bundle (encode_bundle (do_fwd node now b)) = Some w ->
+  exists pre pl, blocks w = pre ++ [pl] /\ btype pl = 1 /\ bnum pl = 1.
+Proof.
+  intros node now b w Hb Hp Hw. apply (c11_w node now b Hb) in Hw. subst w.
+  apply payload_last_num1; assumption.
+Qed.
+
+Lemma C11_crcs_valid_holds : forall (node : eid) (now : N) (b w : bundle),
+  fwd_inb node now b = true ->
+  decode_bundle (encode_bundle (do_fwd node now b)) = Some w ->
+  crc_ok_bundle w = true.
+Proof.
+  intros node now b w Hb Hw. apply (c11_w node now b Hb) in Hw. subst w. apply crcs_valid; try exact Hb.
+Qed.
+
+Lemma C11_other_blocks_untouched_holds : forall (node : eid) (now : N) (b w : bundle),
+  fwd_inb node now b = true ->
+  decode_bundle (encode_bundle (do_fwd node now b)) = Some w ->
+  map core (filter untouchedb (blocks w)) = map core (filter untouchedb (blocks b)).
+Proof.
+  intros node now b w Hb Hw. apply (c11_w node now b Hb) in Hw. subst w. apply other_blocks_untouched; exact Hb.
+Qed.
+
+Lemma C11_nonvacuous_holds :
+  fwd_inb ex_node ex_now ex_bundle = true /\ eids_stableb (prim ex_bundle) = true /\
+  payload_stableb ex_bundle = true /\ prev_parseb ex_bundle = true /\ age_parseb ex_bundle = true /\
+  payload_last_num1b (blocks ex_bundle) = true /\
+  (create_time (prim ex_bundle) =? 0) = false /\ (lifetime (prim ex_bundle) =? 0) = false /\
+  create_time (prim ex_bundle) <= ex_now /\ recv_crc_ok ex_bundle = true /\
+  eid_eqb (src (prim ex_bundle)) ex_node = false /\
+  decode_bundle (encode_bundle ex_bundle) = Some ex_bundle /\
+  map core (blocks (do_fwd ex_node ex_now ex_bundle)) =
+  [(10, 3, 0, 1, [130; 24; 30; 4]); (192, 5, 1, 2, [1; 2; 3]);
+   (6, 2, 0, 0, [130; 1; 101; 47; 47; 109; 101; 47]);
+   (7, 4, 0, 0, [27; 0; 0; 0; 23; 72; 118; 232; 0]);
+   (1, 1, 0, 2, [104; 105])].
+Proof. repeat split; vm_compute; try reflexivity; discriminate. Qed.
